@@ -77,6 +77,12 @@ def gen_samples(rng, n, grid, with_acc=True):
         else:
             level = rng.random() < 0.5
         out.append([adv, level, rng.choice(["get", "on", "off", "bool"]) if with_acc else "get"])
+    if rng.random() < 0.05:
+        # a button that is held (or stuck) for several hundred samples in a row
+        k = rng.randrange(0, len(out))
+        acc_ = out[k][2]
+        out[k + 1:k + 1] = [[rng.choice([0, 20000, GRID]) if not grid else GRID, True, acc_] for _ in range(rng.choice([260, 300, 520]))]
+        out[k][1] = False
     return out
 
 
@@ -357,6 +363,8 @@ def run_filter(acc, case):
                 acc.ev("filter-low-pass")
             else:
                 acc.ev("filter-low-suppressed")
+                if i > 1100:
+                    acc.ev("filter-more-than-1000-records-in-a-row")
         if passes >= 2:
             acc.nontrivial.add(stable_hash(case))
         if real:
@@ -402,6 +410,9 @@ def run_watchdog(acc, case):
     from robotpy_ext.misc.simple_watchdog import SimpleWatchdog
     now_us, step = _clock()
     acc.evaluations += 1
+    if case.get("start_at") and now_us() < case["start_at"]:
+        step(case["start_at"] - now_us())          # e.g. just below 2**32 us (71.6 min of uptime)
+        acc.ev("watchdog-around-2^32us")
     with _Capture() as cap:
         timeout = case["timeout_us"]
         w = SimpleWatchdog(timeout / 1e6)
@@ -567,6 +578,9 @@ def gen_case(rng, kind):
         for _ in range(rng.choice([30, 100, 300])):
             adv = rng.choice([0.0, 0.015625, 0.125, 0.25, 0.5, 1.0, period, period / 2, period * 2, rng.randrange(0, 256) / 64])
             recs.append([adv, rng.choice([logging.DEBUG, logging.INFO, logging.INFO, logging.WARN, logging.ERROR, 25, 35, logging.CRITICAL])])
+        if rng.random() < 0.03:
+            recs = [[rng.choice([0.0, 0.0009765625, 0.001953125]), logging.INFO] for _ in range(1500)] + recs[:20]
+            period = rng.choice([3, 4.0])
         c = {"kind": "filter", "period": period, "bypass": bypass, "records": recs, "real_logger": rng.random() < 0.5}
         if not c["real_logger"] and rng.random() < 0.5:
             t_, cr = 0.0, []
@@ -601,7 +615,10 @@ def gen_case(rng, kind):
             ops.append(["disable"])
         if ops[-1][0] == "adv" and rng.random() < 0.8:
             ops.append(["isExpired"])
-    return {"kind": "watchdog", "timeout_us": t, "ops": ops}
+    c_ = {"kind": "watchdog", "timeout_us": t, "ops": ops}
+    if rng.random() < 0.03:
+        c_["start_at"] = 2 ** 32 - rng.choice([1, t // 2, t, 3 * t]) - 1
+    return c_
 
 
 RUN = {"toggle": run_toggle, "debouncer": run_debouncer, "filter": run_filter, "watchdog": run_watchdog}
